@@ -4,7 +4,7 @@
    balanced use of the context manager. That the implementation's caches (encoded values, object names, record-type
    bytes, merged data) do not leak is decided by the correspondence of in-process histories with the model and with a
    fresh subprocess (harness/props/c14.py). *)
-From DV Require Import Model.ApiDispatch Proofs.BuilderP Proofs.FileP Proofs.RegP Proofs.KeepP.
+From DV Require Import Model.ApiDispatch Proofs.BuilderP Proofs.FileP Proofs.RegP Proofs.KeepP Proofs.StructP Proofs.IdemP.
 
 Theorem C14_new_file_is_fresh : forall ps st rest,
   run_program ps st (TL [TI 20] :: rest) = TL [TI 0] :: run_program ps b_init rest.
@@ -37,7 +37,17 @@ Theorem C14_checked_object_passes_the_axis_check_again : forall st it it',
   check_axis_vs_dimension st it' = OK tt.
 Proof. exact run_checks_axis_checked. Qed.
 
+(* (3) the per-object step of the encoder — synchronise the channel's representation code with its cast dtype, then
+   EFLRItem._run_checks_and_set_defaults of the object's type — is IDEMPOTENT for every object type: applied to the object it
+   returned, it succeeds again and returns that same object. So an object that was written once is accepted unchanged by
+   the next write (Proofs/IdemP.v; item_len_ok holds for every object of a reachable state: FileP.Inv). This is the statement
+   whose PARAMETER branch would not prove before the repair of D23. *)
+Theorem C14_checks_and_defaults_are_idempotent : forall st it it',
+  item_len_ok it -> run_checks st (sync_repr_code it) = OK it' -> run_checks st (sync_repr_code it') = OK it'.
+Proof. exact object_step_idem. Qed.
+
 Print Assumptions C14_new_file_is_fresh.
 Print Assumptions C14_mode_is_the_only_process_state.
 Print Assumptions C14_a_write_leaves_the_specification.
 Print Assumptions C14_checked_object_passes_the_axis_check_again.
+Print Assumptions C14_checks_and_defaults_are_idempotent.
